@@ -253,6 +253,7 @@ func jobReaders(j *jobCtx) {
 	extraStats["race_detector"] = raceEnabled
 	reps := 3
 	hugeDone := map[string]bool{}
+	deepTreeReaders(j, rr)
 	for _, u := range jsonUniverses(j) {
 		x0 := u.New()
 		paths := enumStates(u, 60, isMut(x0))
@@ -412,8 +413,58 @@ func hugeReadOps(x Inst) []readOp {
 	return ops
 }
 
+// a B-tree of order 3 with 270 000 ascending keys is 18 levels deep: whatever is sized by the depth of a tree (indentation,
+// path stacks, level tables) and grown on first use is grown here, by two goroutines at once
+func deepTreeReaders(j *jobCtx, rr *readersRun) {
+	for _, m := range []int{3} {
+		if !j.want("btree") || budgetExceeded() {
+			return
+		}
+		x := &mapInst{kind: "btree", cmp: "nat", m: m, c: newMap("btree", "nat", "", m), probeK: []int{0, 1}}
+		t := x.c.(*btree.Tree[int, V])
+		n := 270000
+		if m == 4 {
+			n = 90000
+		}
+		gi := guard("rd", "btree", "Build", func() {
+			for i := 0; i < n; i++ {
+				t.Put(i, V(i%50))
+			}
+		})
+		if gi.Panic {
+			continue
+		}
+		ops := []readOp{
+			{"String", func() any { return len(t.String()) }},
+			{"Get", func() any { v, ok := t.Get(n - 1); w, ok2 := t.Get(n); return []any{v, ok, w, ok2} }},
+			{"Iterate", func() any {
+				it := t.Iterator()
+				c, sum := 0, 0
+				for it.Next() {
+					c++
+					sum += it.Key() % 7
+				}
+				for i := 0; i < 40 && it.Prev(); i++ {
+					sum += it.Key()
+				}
+				return []int{c, sum}
+			}},
+		}
+		j.states++
+		sparseFP = true // one deep fingerprint before and one after all pairs (a walk over 270 000 nodes by reflection each)
+		readersState(j, rr, x, ops, 1, 2)
+		sparseFP = false
+	}
+}
+
 // readersState: every pair of the given read-only operations on x, `per` goroutines per operation
+var sparseFP bool
+
 func readersState(j *jobCtx, rr *readersRun, x Inst, ops []readOp, reps, per int) {
+	fpAll := ""
+	if sparseFP {
+		fpAll = fullFP(x)
+	}
 	// The concurrent runs come FIRST and the sequential answers are taken afterwards (read-only operations:
 	// the answers are the same before and after): state that is built lazily on first use - inside the
 	// container or in package-level tables - is then first touched by two goroutines at once.
@@ -429,7 +480,10 @@ func readersState(j *jobCtx, rr *readersRun, x Inst, ops []readOp, reps, per int
 	for a := 0; a < len(ops); a++ {
 		for b := a; b < len(ops); b++ {
 			e := Ev{"fam": "rd", "kind": x.Kind(), "op": "Pair", "a": ops[a].name, "b": ops[b].name}
-			fp0 := fullFP(x)
+			fp0 := fpAll
+			if !sparseFP {
+				fp0 = fullFP(x)
+			}
 			rr.newRaces()
 			res := make([][]string, 2*per)
 			pan := make([]bool, 2*per)
@@ -463,7 +517,16 @@ func readersState(j *jobCtx, rr *readersRun, x Inst, ops []readOp, reps, per int
 			for _, p := range pan {
 				anyPan = anyPan || p
 			}
-			done = append(done, pairRes{a, b, res, anyPan, ci.PMsg, ci.Out, rr.newRaces(), fp0 == fullFP(x)})
+			pure := true
+			if !sparseFP {
+				pure = fp0 == fullFP(x)
+			}
+			done = append(done, pairRes{a, b, res, anyPan, ci.PMsg, ci.Out, rr.newRaces(), pure})
+		}
+	}
+	if sparseFP && fpAll != fullFP(x) {
+		for i := range done {
+			done[i].pure = false
 		}
 	}
 	// sequential answers
